@@ -1,0 +1,120 @@
+//go:build verif
+
+package yqlib
+
+// Verification hooks (build tag "verif"). Not compiled into normal builds.
+//
+// Every operator handler is wrapped at init so that an external harness can
+// observe (and, by blocking in the callback, gate) each handler entry and exit.
+// The wrapper keeps no state of its own: it reads one function variable and
+// calls it. With no tracer installed the original handler is called directly.
+
+type VerifEvent struct {
+	Exit bool // false: handler entry, true: handler exit
+	Node *ExpressionNode
+	In   Context
+	Out  Context // only on exit
+	Err  error   // only on exit
+}
+
+var verifTracer func(ev *VerifEvent)
+
+// VerifSetTracer installs (or with nil removes) the handler tracer.
+func VerifSetTracer(f func(ev *VerifEvent)) { verifTracer = f }
+
+func verifWrap(op *operationType) {
+	orig := op.Handler
+	if orig == nil {
+		return
+	}
+	op.Handler = func(d *dataTreeNavigator, context Context, expressionNode *ExpressionNode) (Context, error) {
+		t := verifTracer
+		if t == nil {
+			return orig(d, context, expressionNode)
+		}
+		t(&VerifEvent{Node: expressionNode, In: context})
+		out, err := orig(d, context, expressionNode)
+		t(&VerifEvent{Exit: true, Node: expressionNode, In: context, Out: out, Err: err})
+		return out, err
+	}
+}
+
+// VerifToken is the projection of one lexer token after post-processing.
+type VerifToken struct {
+	Kind       string // "op", "(", ")", "[", "]", "{", "}", ".["
+	OpType     string // operation type name when Kind == "op"
+	Precedence uint
+	NumArgs    uint
+	Text       string
+}
+
+func verifTokenKind(t *token) string {
+	switch t.TokenType {
+	case operationToken:
+		return "op"
+	default:
+		return t.toString(false)
+	}
+}
+
+// VerifTokenise returns the post-processed token list the parser works on.
+func VerifTokenise(expression string) ([]VerifToken, error) {
+	tokens, err := newParticipleLexer().Tokenise(expression)
+	if err != nil {
+		return nil, err
+	}
+	out := make([]VerifToken, 0, len(tokens))
+	for _, t := range tokens {
+		vt := VerifToken{Kind: verifTokenKind(t), Text: t.Match}
+		if t.TokenType == operationToken && t.Operation != nil && t.Operation.OperationType != nil {
+			vt.OpType = t.Operation.OperationType.Type
+			vt.Precedence = t.Operation.OperationType.Precedence
+			vt.NumArgs = t.Operation.OperationType.NumArgs
+		}
+		out = append(out, vt)
+	}
+	return out, nil
+}
+
+// VerifPostfix returns the operation types of the postfix form of an expression.
+func VerifPostfix(expression string) ([]string, error) {
+	tokens, err := newParticipleLexer().Tokenise(expression)
+	if err != nil {
+		return nil, err
+	}
+	ops, err := newExpressionPostFixer().ConvertToPostfix(tokens)
+	if err != nil {
+		return nil, err
+	}
+	out := make([]string, 0, len(ops))
+	for _, o := range ops {
+		out = append(out, o.OperationType.Type)
+	}
+	return out, nil
+}
+
+func init() {
+	for _, op := range []*operationType{
+		orOpType, andOpType, reduceOpType, blockOpType, unionOpType, pipeOpType, assignOpType, addAssignOpType,
+		subtractAssignOpType, assignAttributesOpType, assignStyleOpType, assignVariableOpType, assignTagOpType,
+		assignCommentOpType, assignAnchorOpType, assignAliasOpType, multiplyOpType, multiplyAssignOpType,
+		divideOpType, moduloOpType, addOpType, subtractOpType, alternativeOpType, equalsOpType, notEqualsOpType,
+		compareOpType, minOpType, maxOpType, createMapOpType, shortPipeOpType, lengthOpType, lineOpType,
+		columnOpType, expressionOpType, collectOpType, mapOpType, filterOpType, errorOpType, pickOpType,
+		omitOpType, evalOpType, mapValuesOpType, formatDateTimeOpType, withDtFormatOpType, nowOpType, tzOpType,
+		fromUnixOpType, toUnixOpType, encodeOpType, decodeOpType, anyOpType, allOpType, containsOpType,
+		anyConditionOpType, allConditionOpType, toEntriesOpType, fromEntriesOpType, withEntriesOpType,
+		withOpType, splitDocumentOpType, getVariableOpType, getStyleOpType, getTagOpType, getKindOpType,
+		getKeyOpType, isKeyOpType, getParentOpType, getCommentOpType, getAnchorOpType, getAliasOpType,
+		getDocumentIndexOpType, getFilenameOpType, getFileIndexOpType, getPathOpType, setPathOpType,
+		delPathsOpType, explodeOpType, sortByOpType, reverseOpType, sortOpType, shuffleOpType, sortKeysOpType,
+		joinStringOpType, subStringOpType, matchOpType, captureOpType, testOpType, splitStringOpType,
+		changeCaseOpType, trimOpType, toStringOpType, stringInterpolationOpType, loadOpType, loadStringOpType,
+		keysOpType, collectObjectOpType, traversePathOpType, traverseArrayOpType, selfReferenceOpType,
+		valueOpType, referenceOpType, envOpType, notOpType, toNumberOpType, emptyOpType, envsubstOpType,
+		recursiveDescentOpType, selectOpType, hasOpType, uniqueOpType, uniqueByOpType, groupByOpType,
+		flattenOpType, deleteChildOpType, pivotOpType,
+	} {
+		verifWrap(op)
+	}
+}
